@@ -25,10 +25,13 @@ def sh(cmd, cwd=None, timeout=3600, env=None):
 
 
 def main():
-  args = [a for a in sys.argv[1:] if not a.startswith("--")]
+  argv = sys.argv[1:]
+  if "--keep" in argv:
+    argv = argv[:argv.index("--keep")]
+  args = [a for a in argv if not a.startswith("--")]
   tier = "quick"
-  if "--tier" in sys.argv:
-    tier = sys.argv[sys.argv.index("--tier") + 1]
+  if "--tier" in argv:
+    tier = argv[argv.index("--tier") + 1]
     args.remove(tier)
   d, n, ids = os.path.abspath(args[0]), args[1], args[2:]
   suffix = "" if n == "-" else n
@@ -52,7 +55,7 @@ def main():
     if os.path.exists(demo):
       res["demo_on_repo"] = sh("/venv/bin/python %s /repo" % demo, cwd=d, timeout=1800)[0]
       res["demo_on_mutant"] = sh("/venv/bin/python %s %s" % (demo, wt), cwd=d, timeout=1800)[0]
-    if "--no-baseline" not in sys.argv:
+    if "--no-baseline" not in argv:
       env = dict(os.environ)
       env.pop("GOOGLE_PYTYPE_VERIF", None)
       rc, out = sh("/venv/bin/python -m pytest -q -p no:cacheprovider --timeout=900 "
@@ -70,7 +73,47 @@ def main():
         res["checks"][pid]["tail"] = out[-600:]
   finally:
     sh("git -C /repo worktree remove --force %s" % wt)
+  if "--keep" in sys.argv:
+    keep(res, d, suffix, sys.argv[sys.argv.index("--keep") + 1:])
   print("RESULT " + json.dumps(res))
+
+
+def keep(res, d, suffix, rest):
+  """--keep <property> <slug> <needs...>: store the confirmed change under /verif/seeded/."""
+  import shutil
+  prop, slug, needs = rest[0], rest[1], " ".join(rest[2:])
+  ok = (res.get("applies") and res.get("demo_on_repo") == 0 and res.get("demo_on_mutant") not in (0, None)
+        and res.get("baseline_passed") == 171)
+  res["confirmed"] = bool(ok)
+  if not ok:
+    return
+  out = os.path.join(VERIF, "seeded", "%s-%s" % (prop, slug))
+  os.makedirs(out, exist_ok=True)
+  shutil.copy(os.path.join(d, "patch%s.diff" % suffix), os.path.join(out, "patch.diff"))
+  shutil.copy(os.path.join(d, "demo%s.py" % suffix), os.path.join(out, "demo.py"))
+  notes = os.path.join(d, "notes%s.md" % suffix)
+  if os.path.exists(notes):
+    shutil.copy(notes, os.path.join(out, "notes.md"))
+  meta_p = os.path.join(out, "meta.json")
+  meta = json.load(open(meta_p)) if os.path.exists(meta_p) else {}
+  meta.update({
+      "property": prop,
+      "origin": "written by a fresh sub-agent that was given only the property text and its own "
+                "worktree of /repo (nothing from /verif)",
+      "needs_to_manifest": needs or meta.get("needs_to_manifest", ""),
+      "confirmed": {"patch_applies_to_HEAD": True, "demo_exit_on_unchanged_repo": res["demo_on_repo"],
+                    "demo_exit_on_mutant": res["demo_on_mutant"],
+                    "pinned_suite_passed_on_mutant": res["baseline_passed"]},
+      "how_run": "harness/seedeval.py (scratch git worktree of /repo HEAD, git apply, demo on both "
+                 "trees, pinned suite on the mutant, VERIF_REPO=<worktree> ./check <ID> --tier %s)" % res["tier"],
+  })
+  runs = meta.setdefault("check_runs", [])
+  runs.append({"tier": res["tier"], "checks": res["checks"]})
+  meta["caught_by"] = sorted({c for r in runs for c, v in r["checks"].items() if v["exit"] == 1})
+  meta["not_caught_by"] = sorted({c for r in runs for c, v in r["checks"].items() if v["exit"] == 0}
+                                 - set(meta["caught_by"]))
+  with open(meta_p, "w") as f:
+    json.dump(meta, f, indent=1)
 
 
 if __name__ == "__main__":
